@@ -1119,6 +1119,223 @@ def generate_dense():
     return "\n".join(lines) + "\n"
 
 
+# ---------------------------------------------------------------------------------------------------------------------
+# dense-time online monitor: online/intersection.py and the operation classes -> Rtamt/Py/GeneratedDenseOn.lean
+# (sub-language and semantics: Rtamt/Py/DnOn.lean)
+DENSE_ON_INTER = "rtamt/semantics/stl/dense_time/online/intersection.py"
+DENSE_ON_DIRS = ["rtamt/semantics/stl/dense_time/online", "rtamt/semantics/arithmetic/dense_time/online"]
+DENSE_ON_CTOR = "rtamt/semantics/stl/dense_time/online/ast_visitor.py"
+OUT_DENSE_ON = os.path.join(os.path.dirname(HERE), "lean", "Rtamt", "Py", "GeneratedDenseOn.lean")
+
+
+class DnOnTr(DnTr):
+    """Methods of the operation classes: `self.x` is the local "self.x"; calls of a method of an attribute object and object
+    construction are statements of their own; `break`; `x.copy()`."""
+
+    def __init__(self, fn, module_funcs, class_names, method=False):
+        self.class_names = class_names
+        self.method = method
+        DnTr.__init__(self, fn, module_funcs, visitor=False)
+        if method:
+            self.fresh_only.pop("self", None)
+        # bindings that DnTr.__init__ judged: re-judge with the wider notion of a freshly built list
+        params = set(a.arg for a in fn.args.args)
+        judged = {}
+
+        def note(name, ok):
+            judged[name] = judged.get(name, True) and ok
+        for blk in self.blocks(fn):
+            for k, st in enumerate(blk):
+                if isinstance(st, ast.Assign):
+                    nxt = blk[k + 1] if k + 1 < len(blk) else None
+                    for t in st.targets:
+                        if isinstance(t, ast.Tuple):
+                            for nm in t.elts:
+                                n_ = self.target_name(nm)
+                                if n_:
+                                    note(n_, isinstance(st.value, ast.Call))       # the parts of a callee's result
+                        else:
+                            n_ = self.target_name(t)
+                            if n_:
+                                note(n_, self.is_fresh(st.value) or self.is_handover(st, nxt))
+                elif isinstance(st, ast.For):
+                    for nm in ast.walk(st.target):
+                        if isinstance(nm, ast.Name):
+                            note(nm.id, False)
+        for p_ in params:
+            first = next((st for st in fn.body if any(isinstance(x, ast.Name) and x.id == p_ for x in ast.walk(st))), None)
+            copied = (isinstance(first, ast.Assign) and len(first.targets) == 1 and isinstance(first.targets[0], ast.Name)
+                      and first.targets[0].id == p_ and src(first.value) == "list(%s)" % p_)
+            if not (copied and judged.get(p_, False)):
+                judged[p_] = False
+        self.fresh_only = judged
+
+    @staticmethod
+    def blocks(fn):
+        out = []
+        for x in ast.walk(fn):
+            for f_ in ("body", "orelse"):
+                b = getattr(x, f_, None)
+                if isinstance(b, list) and b and isinstance(b[0], ast.stmt):
+                    out.append(b)
+        return out
+
+    def is_fresh(self, e):
+        if DnTr.is_fresh_list(e):
+            return True
+        if isinstance(e, ast.BinOp) and isinstance(e.op, ast.Add):
+            return True                      # a concatenation (or a number: never changed in place)
+        if isinstance(e, ast.Subscript) and isinstance(e.slice, ast.Slice):
+            return True
+        if isinstance(e, ast.Call):
+            f = src(e.func)
+            if f.endswith(".copy") and not e.args:
+                return True
+            if f in ("len", "max", "min", "abs", "float"):
+                return True
+            return True                      # the result of a function / method: built by the callee
+        if isinstance(e, (ast.Constant, ast.Tuple, ast.UnaryOp, ast.Compare, ast.BoolOp)):
+            return True
+        if isinstance(e, ast.List):
+            return True
+        return False
+
+    def is_handover(self, st, nxt):
+        """`x = self.a` directly followed by `self.a = <fresh>`: the list changes its owner, nobody else refers to it."""
+        if not (isinstance(st.value, ast.Attribute) and isinstance(st.value.value, ast.Name) and st.value.value.id == "self"):
+            return False
+        return (isinstance(nxt, ast.Assign) and len(nxt.targets) == 1 and src(nxt.targets[0]) == src(st.value)
+                and self.is_fresh(nxt.value))
+
+    def target_name(self, t):
+        if isinstance(t, ast.Name):
+            return t.id
+        if self.method and isinstance(t, ast.Attribute) and isinstance(t.value, ast.Name) and t.value.id == "self":
+            return "self." + t.attr
+        return None
+
+    def expr(self, e):
+        t = src(e)
+        if self.method:
+            if isinstance(e, ast.Attribute) and e.attr == "value" and isinstance(e.value, ast.Attribute) \
+                    and isinstance(e.value.value, ast.Name) and e.value.value.id == "self":
+                return "(.loc %s)" % q("self." + e.value.attr)          # self.comparison_op.value
+            if isinstance(e, ast.Attribute) and e.attr == "value" and isinstance(e.value, ast.Attribute) \
+                    and src(e.value.value) == "StlComparisonOperator" and e.value.attr in CMP:
+                return "(.cmpc .%s)" % CMP[e.value.attr]
+            if isinstance(e, ast.Attribute) and isinstance(e.value, ast.Name) and e.value.id == "self":
+                return "(.loc %s)" % q("self." + e.attr)
+        if isinstance(e, ast.Call) and isinstance(e.func, ast.Attribute) and e.func.attr == "copy" and not e.args and not e.keywords:
+            return "(.call1 \"list\" %s)" % self.expr(e.func.value)
+        return DnTr.expr(self, e)
+
+    def stmt(self, st):
+        t = src(st)
+        if isinstance(st, ast.Break):
+            return ".brk"
+        if isinstance(st, ast.Assign) and len(st.targets) > 1 and all(isinstance(x, ast.Name) for x in st.targets) \
+                and isinstance(st.value, ast.Constant):
+            return self.seq(["(.setLoc %s %s)" % (q(x.id), self.expr(st.value)) for x in st.targets])
+        if isinstance(st, ast.Assign) and len(st.targets) == 1 and isinstance(st.value, ast.IfExp) and self.target_name(st.targets[0]):
+            # x = a if c else b
+            tg = q(self.target_name(st.targets[0]))
+            return "(.ite %s (.setLoc %s %s) (.setLoc %s %s))" % (self.expr(st.value.test), tg, self.expr(st.value.body), tg,
+                                                                  self.expr(st.value.orelse))
+        if self.method and isinstance(st, ast.Assign) and len(st.targets) == 1 and isinstance(st.value, ast.Call) \
+                and all(k.arg is None for k in st.value.keywords):
+            c = st.value
+            tg = self.target_name(st.targets[0])
+            args = [a for a in c.args if not isinstance(a, ast.Starred)]
+            # t = self.a.m(args)
+            if tg and isinstance(c.func, ast.Attribute) and isinstance(c.func.value, ast.Attribute) \
+                    and isinstance(c.func.value.value, ast.Name) and c.func.value.value.id == "self":
+                return "(.mcall (some %s) %s %s [%s])" % (q(tg), q("self." + c.func.value.attr), q(c.func.attr),
+                                                          ", ".join(self.expr(a) for a in args))
+            # t = Cls(args)
+            if tg and isinstance(c.func, ast.Name) and c.func.id in self.class_names and len(args) == len(c.args) and not c.keywords:
+                return "(.new %s %s [%s])" % (q(tg), q(c.func.id), ", ".join(self.expr(a) for a in args))
+        if self.method and isinstance(st, ast.Expr) and isinstance(st.value, ast.Call) and not st.value.keywords \
+                and isinstance(st.value.func, ast.Attribute) and isinstance(st.value.func.value, ast.Attribute) \
+                and isinstance(st.value.func.value.value, ast.Name) and st.value.func.value.value.id == "self":
+            c = st.value
+            x, m, a = "self." + c.func.value.attr, c.func.attr, c.args
+            if m in ("append", "insert", "pop"):
+                if not self.mutable(x):
+                    return "(.unsupported %s)" % q(t + "  # in-place change of a list that may be shared")
+                if m == "append" and len(a) == 1:
+                    return "(.appendLoc %s %s)" % (q(x), self.expr(a[0]))
+                if m == "insert" and len(a) == 2 and isinstance(a[0], ast.Constant) and a[0].value == 0:
+                    return "(.insert0 %s %s)" % (q(x), self.expr(a[1]))
+                if m == "pop" and len(a) == 1:
+                    return "(.delIdx %s %s)" % (q(x), self.expr(a[0]))
+        return DnTr.stmt(self, st)
+
+
+def generate_dense_on():
+    lines = ["/- GENERATED by harness/py2lean.py from %s and the operation classes of %s of /repo on every run - do not edit. -/"
+             % (DENSE_ON_INTER, ", ".join(DENSE_ON_DIRS)),
+             "import Rtamt.Py.DnOn", "import Rtamt.Py.OnCtor", "", "namespace Rtamt.Py.Gen.DenseOn", "open Rtamt Rtamt.Py Rtamt.Py.DnOn", ""]
+    entries = []
+    tree = ast.parse(open(os.path.join(REPO, DENSE_ON_INTER)).read())
+    funcs = {n.name: n for n in tree.body if isinstance(n, ast.FunctionDef)}
+    classes = {}
+    for d in DENSE_ON_DIRS:
+        for path in sorted(glob.glob(os.path.join(REPO, d, "*_operation.py"))):
+            for n in ast.parse(open(path).read()).body:
+                if isinstance(n, ast.ClassDef):
+                    classes[n.name] = n
+    for name, f in funcs.items():
+        if name == "_append":
+            continue
+        a = f.args
+        if a.vararg or a.kwarg or a.kwonlyargs or a.defaults:
+            params, body = [], "(.unsupported %s)" % q("signature of " + name)
+        else:
+            tr = DnOnTr(f, funcs, set(classes))
+            params, body = [x.arg for x in a.args], tr.block(f.body)
+        ident = "fn_" + name
+        lines.append("def %s : Fn :=\n  { name := %s, params := [%s], body := %s }" % (ident, q(name), ", ".join(q(x) for x in params), body))
+        lines.append("")
+        entries.append((name, ident))
+    for cname, cls in classes.items():
+        meths = {}
+        for m in cls.body:
+            if isinstance(m, ast.FunctionDef):
+                meths[m.name] = m
+        for mname in ("__init__", "update", "sat"):
+            m = meths.get(mname)
+            if m is None:
+                continue
+            a = m.args
+            if a.kwonlyargs or a.defaults or not a.args or a.args[0].arg != "self":
+                params, body = ["self"], "(.unsupported %s)" % q("signature of %s.%s" % (cname, mname))
+            else:
+                tr = DnOnTr(m, funcs, set(classes), method=True)
+                params, body = [x.arg for x in a.args], tr.block(m.body)
+            ident = "%s_%s" % (cname, mname.strip("_"))
+            lines.append("def %s : Fn :=\n  { name := %s, params := [%s], body := %s, isMethod := true }" % (
+                ident, q("%s.%s" % (cname, mname)), ", ".join(q(x) for x in params), body))
+            lines.append("")
+            entries.append(("%s.%s" % (cname, mname), ident))
+    lines.append("/-- the functions of the online intersection.py and the methods `Cls.__init__` / `Cls.update` / `Cls.sat` of the operation classes -/")
+    lines.append("def fns : List (String × Fn) := [%s]" % ", ".join("(%s, %s)" % (q(n), i) for n, i in entries))
+    lines.append("")
+    # the construction visitor: which class for which node
+    global ONCTOR_FILE
+    keep = ONCTOR_FILE
+    ONCTOR_FILE = DENSE_ON_CTOR
+    try:
+        txt = generate_onctor()
+    finally:
+        ONCTOR_FILE = keep
+    tab = txt[txt.index("def table"):txt.index("end Rtamt.Py.Gen.OnCtor")]
+    lines.append("/-- what `visitX` of the construction visitor (%s) does after visiting the children -/" % DENSE_ON_CTOR)
+    lines.append(tab.rstrip())
+    lines.append("")
+    lines.append("end Rtamt.Py.Gen.DenseOn")
+    return "\n".join(lines) + "\n"
+
+
 INTERP_FILE = "rtamt/semantics/discrete_time_interpreter.py"
 OUT_UNITS = os.path.join(os.path.dirname(HERE), "lean", "Rtamt", "Py", "GeneratedUnits.lean")
 
@@ -1735,6 +1952,7 @@ def main():
     write_if_changed(OUT_IAOFF, generate_iaoff())
     write_if_changed(OUT_IAON, generate_iaon())
     write_if_changed(OUT_DENSE, generate_dense())
+    write_if_changed(OUT_DENSE_ON, generate_dense_on())
     txt = generate()
     old = open(OUT).read() if os.path.exists(OUT) else None
     if txt != old:
